@@ -498,7 +498,8 @@ func definesStructurallyOK(f *ssa.Function, d *ECall) bool {
 
 // unmatchedAtCall: an `at call` clause reads "whenever this call happens"; when the call no longer exists the clause
 // holds vacuously, but the contract is out of date - reported as undecided (not as a violation), so it shows in the
-// evidence instead of passing silently.
+// evidence instead of passing silently. An `at call!` clause says the call itself is part of the property (the return
+// IS written, the credential IS sent through the redacting write): its disappearance fails the obligation.
 func (c *Ctx) unmatchedAtCall(f *ssa.Function, fc *FuncContract) []string {
 	var out []string
 	for _, cl := range fc.Clauses {
@@ -507,13 +508,20 @@ func (c *Ctx) unmatchedAtCall(f *ssa.Function, fc *FuncContract) []string {
 		}
 		found := false
 		for _, o := range c.oblOrder {
-			if o.Kind == "atcall" && o.Detail == cl.Site && o.Src == cl.Src {
+			if o.Kind == "atcall" && o.Detail == cl.Site && strings.HasPrefix(o.Src, cl.Src) {
 				found = true
 			}
 		}
-		if !found {
-			out = append(out, fmt.Sprintf("at call %s: no explored path reaches such a call (clause #%s is vacuous; contract out of date?)", cl.Site, cl.Label))
+		if found {
+			continue
 		}
+		if cl.Required {
+			c.curClause = cl
+			c.oblige(newState(), nil, "atcall", cl.Site, cl.Label, f.Pos(), tFalse, cl.Props, cl.Src+"  -- VIOLATED: no explored path reaches a call "+cl.Site+" any more, and the clause requires the call")
+			c.curClause = nil
+			continue
+		}
+		out = append(out, fmt.Sprintf("at call %s: no explored path reaches such a call (clause #%s is vacuous; contract out of date?)", cl.Site, cl.Label))
 	}
 	return out
 }
